@@ -273,8 +273,16 @@ class Check(object):
         for n in self.notes:
             print('NOTE %s' % n)
         rc = 0
+        rdir = os.path.join(VERIF, 'replays', self.prop)
+        if os.path.isdir(rdir) and not os.environ.get('VERIF_KEEP_REPLAYS'):
+            # replay files of an earlier run with the same tier and seed are stale
+            for f in os.listdir(rdir):
+                if f.startswith('%s-%d-' % (self.tier, seed())):
+                    try:
+                        os.unlink(os.path.join(rdir, f))
+                    except OSError:
+                        pass
         if self.violations:
-            rdir = os.path.join(VERIF, 'replays', self.prop)
             os.makedirs(rdir, exist_ok=True)
             for i, (sig, what, payload) in enumerate(self.violations[:20]):
                 path = os.path.join(rdir, '%s-%d-%d.json' % (self.tier, seed(), i))
